@@ -1,6 +1,7 @@
 mod check;
 mod conv;
 mod cup;
+mod deep;
 mod env;
 mod exec;
 mod gen;
@@ -107,6 +108,33 @@ fn cmd_check(id: &str, tier: &str) -> i32 {
     let mut agg = agg.into_inner().unwrap();
     let known = check::load_known(&format!("{}/KNOWN_FINDINGS.txt", verif_root()));
     let mut exit = 0;
+    let mut deep_violations = 0;
+    if id == "C16" {
+        // deeply nested documents are parsed in child processes (a stack overflow aborts)
+        let n = if tier == "thorough" { 2160 } else { 216 };
+        let o = deep::probe(seed, n);
+        agg.runs += o.documents;
+        agg.counters.insert("R4.deep_nesting_documents_parsed_in_child_processes".into(), o.documents);
+        agg.counters.insert("R4.deep_nesting_documents_value".into(), o.values);
+        agg.counters.insert("R4.deep_nesting_documents_error".into(), o.errors);
+        for (k, (index, how)) in o.failures.iter().enumerate() {
+            deep_violations += 1;
+            if k >= 3 {
+                continue;
+            }
+            let (depth, pos, shape, prefix) = deep::describe(seed, *index);
+            let dir = format!("{}/replays", out_dir());
+            let _ = std::fs::create_dir_all(&dir);
+            let path = format!("{dir}/C16-C16_R4-deep-{seed}-{index}.json");
+            let doc = json!({"property": "C16", "rule": "C16.R4", "site": "deep-nesting", "kind": "deep_parse", "seed": seed, "index": index,
+                "detail": format!("the process parsing a document nested {depth} levels deep ({shape}) in an extension member of the {pos} object did not survive: {how}"),
+                "document": {"depth": depth, "position": pos, "shape": shape, "xssi_prefix": prefix}});
+            std::fs::write(&path, serde_json::to_string_pretty(&doc).unwrap()).expect("write replay");
+            println!("VIOLATION property=C16 replay={path}");
+            println!("  rule=C16.R4 site=deep-nesting detail={}", doc["detail"].as_str().unwrap());
+            exit = 1;
+        }
+    }
     if !agg.harness_errors.is_empty() {
         for e in agg.harness_errors.iter().take(5) {
             eprintln!("HARNESS-ERROR {e}");
@@ -173,7 +201,7 @@ fn cmd_check(id: &str, tier: &str) -> i32 {
         },
         "assumptions": def.assumptions,
         "wall_s": wall,
-        "violations": n_viol,
+        "violations": n_viol + deep_violations,
     });
     let edir = std::env::var("VERIF_EVIDENCE_DIR").unwrap_or_else(|_| format!("{}/evidence", verif_root()));
     let _ = std::fs::create_dir_all(&edir);
@@ -183,7 +211,7 @@ fn cmd_check(id: &str, tier: &str) -> i32 {
         agg.runs,
         agg.sigs.len(),
         agg.interleavings.len(),
-        n_viol,
+        n_viol + deep_violations,
         wall
     );
     for (k, v) in &agg.counters {
@@ -201,6 +229,20 @@ fn cmd_replay(path: &str) -> i32 {
         }
     };
     let doc: Value = serde_json::from_str(&s).expect("replay json");
+    if doc["kind"].as_str() == Some("deep_parse") {
+        let (seed, index) = (doc["seed"].as_u64().unwrap(), doc["index"].as_u64().unwrap());
+        let o = deep::probe_one(seed, index);
+        return match o {
+            Err(how) => {
+                println!("REPRODUCED rule=C16.R4 site=deep-nesting detail={how}");
+                1
+            }
+            Ok(_) => {
+                println!("NOT REPRODUCED: the child process parsing document {index} ended normally");
+                0
+            }
+        };
+    }
     let id = doc["property"].as_str().unwrap();
     let tier = doc["tier"].as_str().unwrap_or("quick");
     let defs = props::all();
@@ -310,6 +352,7 @@ fn main() {
         Some("replay") => cmd_replay(&args[2]),
         Some("determinism") => cmd_determinism(args.get(2).and_then(|s| s.parse().ok()).unwrap_or(50)),
         Some("dump") => cmd_dump(&args[2], &args[3], args[4].parse().unwrap()),
+        Some("deep-parse") => deep::cmd_deep_parse(args[2].parse().unwrap(), args[3].parse().unwrap(), args[4].parse().unwrap()),
         _ => {
             eprintln!("usage: sim check <Cxx> quick|thorough | replay <file> | determinism <n> | dump <Cxx> <batch> <idx>");
             2
